@@ -7,8 +7,8 @@ use crate::rng::{hash_str, Rng};
 use crate::walk::*;
 use autosar_data::*;
 
-const NAMES: [&str; 20] = [
-    "a2", "a10", "a1b", "a01", "a1", "a001", "a1_0", "sig1", "sig01", "sig001", "b", "B", "ab", "a", "a9", "a10b", "x", "x0", "x00", "a_1",
+const NAMES: [&str; 23] = [
+    "a18446744073709551615", "a18446744073709551616", "a99999999999999999999999", "a2", "a10", "a1b", "a01", "a1", "a001", "a1_0", "sig1", "sig01", "sig001", "b", "B", "ab", "a", "a9", "a10b", "x", "x0", "x00", "a_1",
 ];
 
 #[derive(Clone, Debug)]
